@@ -246,6 +246,31 @@ def filter_case(case):
                 git(repo, 'update-ref', 'refs/remotes/origin-old/legacy', tips0[0])
                 git(repo, 'update-ref', 'refs/remotes/origin2/main', tips0[-1])
                 count('remotes-named-like-origin')
+                # branches and tags whose names are not valid UTF-8 (Latin-1), under the prefixes the rename options use
+                for nm, tp in ((b'refs/tags/v-caf\xe9', tips0[0]), (b'refs/tags/l\xe9ger', tips0[-1]), (b'refs/heads/side-\xe9t\xe9', tips0[0]), (b'refs/heads/ma-\xe9', tips0[-1])):
+                    subprocess.run([b'git', b'-C', repo.encode('utf-8', 'surrogateescape'), b'update-ref', nm, tp.encode()], env=GIT_ENV, stdout=subprocess.DEVNULL, stderr=subprocess.DEVNULL)
+                count('ref-names-not-utf8')
+        if case['mode'] != 'rules' and case['id'] % 10 == 8 and refs(repo) and not bare_repo:
+            # a clone with an origin (which also has branches called release/HEAD and HEAD-fixes) and refs of a remote named
+            # origin-old: after a no-option run the ref names must be what the Lean model of migrate.rs plans (Frrs/Migrate.lean)
+            src2, mc = os.path.join(root, 'origin-copy'), os.path.join(root, 'migrating-clone')
+            shutil.copytree(repo, src2, symlinks=True)
+            tipm = [v[0] for kk, v in sorted(refs(src2).items()) if v[1] == 'commit'][0]
+            git(src2, 'update-ref', 'refs/heads/release/HEAD', tipm); git(src2, 'update-ref', 'refs/heads/HEAD-fixes', tipm)
+            subprocess.run(['git', 'clone', '-q', '--no-local', src2, mc], check=True, env=GIT_ENV, stdout=subprocess.DEVNULL, stderr=subprocess.DEVNULL)
+            git(mc, 'update-ref', 'refs/remotes/origin-old/legacy', tipm)
+            rb = refs(mc)
+            pairs = ','.join(f'{enhex(n.encode())}:{enhex(v[0].encode())}' for n, v in sorted(rb.items())) or '-'
+            cpart, dpart = model().ask('migrate ' + pairs).split(' ')
+            dec = lambda t: [] if t in ('-', '') else [tuple(unhex(x).decode() for x in it.split(':')) for it in t.split(',')]
+            creates = dict(dec(cpart[2:]))
+            rcm, _, errm, _ = run_tool(mc, ['--force', '--prune-empty', 'never', '--prune-degenerate', 'never'])
+            if rcm == 0:
+                ra = refs(mc)
+                want_names = {n for n in rb if not n.startswith('refs/remotes/origin/')} | set(creates)
+                if set(ra) != want_names:
+                    res['failures'].append(('C03', f'after a no-option run in a clone the refs are not the ones the migration of origin\'s refs plans: missing {sorted(want_names - set(ra))[:3]}, unexpected {sorted(set(ra) - want_names)[:3]}'))
+                count('origin-migration-checked-against-the-model')
         before_refs = refs(repo)
         before_head = head_of(repo)
         s_before = export(repo)
@@ -889,7 +914,17 @@ def sanity_case(case):
         sh(src, 'git config user.name T; git config user.email t@e; echo a > a; echo b > b; git add .; git commit -q -m c1; echo c >> a; git commit -q -am c2; git branch side HEAD~1; git tag v1')
         bare = case['bare']
         repo = os.path.join(root, 'clone.git' if bare else 'clone')
-        subprocess.run(['git', 'clone', '-q', '--no-local'] + (['--bare'] if bare else []) + [src, repo], check=True, env=GIT_ENV, stderr=subprocess.DEVNULL)
+        if case.get('submodule'):
+            # the superproject has an initialised submodule; the only thing that will differ from a fresh clone is which commit the
+            # submodule has checked out (a gitlink change: ` M sub` in git status)
+            subr = os.path.join(root, 'sub')
+            subprocess.run(['git', 'init', '-q', '-b', 'main', subr], check=True, env=GIT_ENV)
+            sh(subr, 'git config user.name T; git config user.email t@e; echo 1 > s; git add s; git commit -q -m s1; echo 2 >> s; git commit -q -am s2')
+            sh(src, 'git -c protocol.file.allow=always submodule add -q ../sub sub; git commit -q -m add-submodule')
+            subprocess.run(['git', '-c', 'protocol.file.allow=always', 'clone', '-q', '--no-local', '--recurse-submodules', src, repo], check=True, env=GIT_ENV, stdout=subprocess.DEVNULL, stderr=subprocess.DEVNULL)
+            count('superproject-with-submodule')
+        else:
+            subprocess.run(['git', 'clone', '-q', '--no-local'] + (['--bare'] if bare else []) + [src, repo], check=True, env=GIT_ENV, stderr=subprocess.DEVNULL)
         if not bare:
             sh(repo, 'git config user.name T; git config user.email t@e')
         applied = [v for i, v in enumerate(VIOLATIONS) if case['mask'] >> i & 1]
@@ -908,7 +943,9 @@ def sanity_case(case):
         for v in applied:
             if bare and v in ('unstaged', 'staged', 'untracked', 'stash'):
                 continue
-            if v == 'unstaged': sh(repo, 'echo x >> a')
+            if v == 'unstaged' and case.get('submodule'): sh(repo, 'git -C sub checkout -q HEAD~1')
+            elif v == 'staged' and case.get('submodule'): sh(repo, 'git -C sub checkout -q HEAD~1; git add sub')
+            elif v == 'unstaged': sh(repo, 'echo x >> a')
             elif v == 'staged': sh(repo, 'echo y > staged.txt; git add staged.txt')
             elif v == 'untracked': sh(repo, 'echo z > untracked.txt')
             elif v == 'reflog':
@@ -918,7 +955,12 @@ def sanity_case(case):
             elif v == 'remote': sh(repo, 'git remote add other https://example.invalid/x.git')
             elif v == 'unpushed':
                 if bare: continue
-                sh(repo, 'git branch newlocal HEAD')
+                if case.get('casevariant'):
+                    # a local branch that differs from one of origin's only in the case of its name, on the same commit; the
+                    # repository says core.ignorecase=true — it is still a branch origin does not have
+                    sh(repo, 'git branch --no-track Side origin/side')
+                else:
+                    sh(repo, 'git branch newlocal HEAD')
             elif v == 'loose': sh(repo, 'echo loose-object | git hash-object -w --stdin')
         facts = gather_facts(repo, bare)
         if case.get('ignorecase'):
@@ -1752,6 +1794,10 @@ def sweep_cases(tier):
         add('filter', 40, 9, None, ['--path', 'd1/'], damaged=nd)
         add('analyze', 40, 9, None, damaged=nd)
         add('detect', 40, 9, None, damaged=nd)
+    # an id list for --strip-blobs-with-ids around and beyond the 10 000-entry switch to the on-disk lookup (ids the repository does
+    # not hold: every blob of the history is looked up and not found)
+    for nids in ([2000, 12001] if tier == 'quick' else [2000, 10000, 10001, 12001, 30000]):
+        add('filter', 60, 9, None, ['--strip-blobs-with-ids', f'@IDS@{nids}'])
     # a SHA-256 repository, rewritten twice (the second run finds the first run's maps and asks the importer for ids)
     for n in ([60, 700] if tier == 'quick' else [60, 300, 700, 3000]):
         add('filter-sha256', n, 9, [None, 'chunk'][len(cases) % 2], ['--path-rename', 'd1/:moved/'])
@@ -1800,6 +1846,14 @@ def sweep_case(case):
         if case['shim']:
             env = perturbed_env(root, case['id'], case['shim'])
             env['FRRS_SHIM_IN'], env['FRRS_SHIM_OUT'] = ('4096', '4096') if nobj * max(case['blobsize'], 60) > 3_000_000 else ('113', '251')
+        for i, a in enumerate(case['args']):
+            if a.startswith('@IDS@'):
+                import random
+                rnd_ids = random.Random(int(a[5:]))
+                idf = os.path.join(root, 'ids.txt')
+                with open(idf, 'w') as f:
+                    f.write(''.join('%040x\n' % rnd_ids.getrandbits(160) for _ in range(int(a[5:]))))
+                case['args'][i] = idf
         args = {'detect': ['--detect-secrets'], 'detect-many': ['--detect-secrets'], 'analyze': ['--analyze', '--analyze-json'],
                 'filter': ['--force'] + case['args'], 'filter-noisy': ['--force'] + case['args'], 'filter-sha256': ['--force'] + case['args']}[case['mode']]
         if case['mode'] == 'filter-sha256':
